@@ -6,9 +6,9 @@ package main
 
 import (
 	"fmt"
-	"os"
 	"go/token"
 	"go/types"
+	"os"
 
 	"golang.org/x/tools/go/ssa"
 )
@@ -194,12 +194,11 @@ func checkC01(c *Ctx) {
 	}
 	m := t.m
 	const O1, O2, V1, N1, W1 = "C01.O1", "C01.O2", "C01.V1", "C01.N1", "C01.W1"
-	c.Rule(O1, "protocol start has barrier depth ≥ 2", 2)
-	c.Rule(O2, "RBC handler, classifier and Init in place before the second barrier opens", 6)
-	c.Rule(V1, "second barrier over the agreed list: members, topic, count", 6)
-	c.Rule(N1, "first-level count Threshold+1 in Sign; RBC size = admitted participants", 2)
-	c.Rule(W1, "silent mode wiring", 5)
-
+	c.Rule(O1, "protocol start has barrier depth ≥ 2", 1)
+	c.Rule(O2, "RBC handler, classifier and Init in place before the second barrier opens", 3)
+	c.Rule(V1, "second barrier over the agreed list: members, topic, count", 3)
+	c.Rule(N1, "first-level count Threshold+1 in Sign; RBC size = admitted participants", 1)
+	c.Rule(W1, "silent mode wiring", 2)
 	// ------------------------------------------------------------------ O1
 	nStart := 0
 	for _, name := range []string{"KeyGen", "Sign"} {
@@ -334,7 +333,7 @@ func checkC01(c *Ctx) {
 				box = a
 			case isNamed(el, PkgThreshold, "Scheme"):
 				sch = a
-			case isNamed(el, PkgThreshold, "embeddedBoxWithScheme"):
+			case m.isNamedA(el, PkgThreshold, "embeddedBoxWithScheme"):
 				emb = a
 			}
 		}
